@@ -187,3 +187,67 @@ func weightsList(w map[int]int) []int {
 func (cfg Config) Describe() string {
 	return fmt.Sprintf("n=%d %s %s twins=%v actors=%v crashed=%v leaders=%v byview=%d", cfg.N, cfg.Rules, cfg.Crypto, cfg.Twins, cfg.Actors, cfg.Crashed, cfg.Leaders, len(cfg.ByView))
 }
+
+// GenLagSteps draws a schedule shaped to make replicas fall behind and catch up: phases of synchronous progress, a
+// partition during which the groups go on by themselves (progress or timeouts per group), loss of everything that crossed
+// the partition, healing, and a few arbitrary steps in between. Leaves every choice to rapid.
+func GenLagSteps(rt *rapid.T, cfg Config, o GenOpts) []Step {
+	var steps []Step
+	burst := func(label string, max int) {
+		for i, n := 0, rapid.IntRange(0, max).Draw(rt, label); i < n; i++ {
+			steps = append(steps, Step{K: KBurst, C: rapid.IntRange(0, 5).Draw(rt, "rounds")})
+		}
+	}
+	phases := rapid.IntRange(1, 4).Draw(rt, "phases")
+	for p := 0; p < phases; p++ {
+		burst("warm", 5)
+		if rapid.IntRange(0, 2).Draw(rt, "partkind") == 0 {
+			steps = append(steps, Step{K: KPartition, A: rapid.IntRange(0, 19682).Draw(rt, "part")})
+		} else {
+			// a minority of at most f replicas is cut off, the rest stays together and can go on
+			nst := cfg.N + len(cfg.Twins)
+			cut := rapid.SliceOfNDistinct(rapid.IntRange(0, nst-1), 1, max(1, hotstuff.NumFaulty(cfg.N)), func(i int) int { return i }).Draw(rt, "cut")
+			code, pow := 0, 1
+			for i := 0; i < nst; i++ {
+				if contains(cut, i) {
+					code += pow * rapid.IntRange(1, 2).Draw(rt, "cutgroup")
+				}
+				pow *= 3
+			}
+			steps = append(steps, Step{K: KPartition, A: code})
+		}
+		for i, n := 0, rapid.IntRange(1, 6).Draw(rt, "rounds-apart"); i < n; i++ {
+			switch rapid.IntRange(0, 3).Draw(rt, "apart") {
+			case 0:
+				steps = append(steps, Step{K: KBurst, C: rapid.IntRange(0, 5).Draw(rt, "rounds")})
+			case 1:
+				steps = append(steps, Step{K: KTimeoutPart, B: rapid.IntRange(0, 2).Draw(rt, "group")}, Step{K: KBurst, C: 5})
+			case 2:
+				steps = append(steps, Step{K: KTimeoutAll}, Step{K: KBurst, C: 5})
+			case 3:
+				steps = append(steps, GenSteps(rt, cfg, GenOpts{MaxSteps: 6, ActorBias: o.ActorBias, ActorWeights: o.ActorWeights})...)
+			}
+		}
+		if rapid.IntRange(0, 3).Draw(rt, "lose") > 0 {
+			steps = append(steps, Step{K: KDropCross})
+		}
+		steps = append(steps, Step{K: KHeal})
+		switch rapid.IntRange(0, 2).Draw(rt, "after") {
+		case 0:
+			steps = append(steps, Step{K: KDeliver, A: rapid.IntRange(0, 40).Draw(rt, "a")})
+		case 1:
+			steps = append(steps, Step{K: KTimeoutAll})
+		}
+		burst("cool", 4)
+	}
+	return steps
+}
+
+// GenSchedule draws either an unstructured schedule (GenSteps) or, for about a quarter of the cases without a per-view
+// scenario, one shaped to make replicas fall behind and catch up (GenLagSteps).
+func GenSchedule(rt *rapid.T, cfg Config, o GenOpts) []Step {
+	if len(cfg.ByView) == 0 && rapid.IntRange(0, 3).Draw(rt, "shape") == 0 {
+		return GenLagSteps(rt, cfg, o)
+	}
+	return GenSteps(rt, cfg, o)
+}
